@@ -1,10 +1,11 @@
 (* extraction of the RawKV model — ExtrOcamlBasic only; N/positive/nat stay inductive *)
 Require Extraction.
 Require Import ExtrOcamlBasic.
-From Verif Require Import RawKV.Model.
+From Verif Require Import RawKV.Model RawKV.Stream.
 Extraction Language OCaml.
 Extraction "rawkv_model.ml"
   lex_cmp st_get srv_put srv_get st_del range loc_lo loc_hi loc_end_lo
   scan rscan drange_loop cksum cks_list batch_get batch_put bdel_rounds srv_cas spec_cas
   group_keys sub_batches key_chunks put_chunks all_served drange_run
-  srv_batch_put srv_batch_delete append_batches client_scan client_rscan Z.of_N.
+  srv_batch_put srv_batch_delete append_batches client_scan client_rscan
+  scan_reqs rscan_reqs cksum_reqs drange_reqs Z.of_N.
